@@ -12,6 +12,7 @@
 # See the License for the specific language governing permissions and
 # limitations under the License.
 
+import builtins
 import dataclasses
 import itertools
 import jinja2
@@ -55,7 +56,7 @@ from google.protobuf import descriptor_pb2
 RESERVED_WORDS = frozenset(
     itertools.chain(
         keyword.kwlist,
-        dir(__builtins__),
+        dir(builtins),
         {
             "client",
             "f",  # parameter used in file I/O statements
